@@ -26,7 +26,7 @@ import time
 
 HERE = os.path.dirname(os.path.dirname(os.path.realpath(__file__)))
 REPO = os.environ.get("ZIP_VERIF_REPO", "/repo")
-HARNESS_DIR = os.path.join(HERE, "harness")
+HARNESS_DIR = os.environ.get("ZIP_VERIF_HARNESS_SRC") or os.path.join(HERE, "harness")
 WORK = os.path.join(HERE, ".work")
 EVID = os.path.join(HERE, "evidence")
 REPLAYS = os.path.join(HERE, "replays")
@@ -79,7 +79,7 @@ def parse_registry():
                 name = ann.get("name")
                 if not name:
                     for j in range(i + 1, min(i + 12, len(lines))):
-                        m = re.search(r"\bfn\s+(\w+)\s*\(", lines[j])
+                        m = re.search(r"\bfn\s+(\w+)\s*\(", lines[j]) or re.search(r"^\s*\w+!\(\s*(\w+)\s*,", lines[j])
                         if m:
                             name = m.group(1)
                             break
@@ -90,22 +90,29 @@ def parse_registry():
                     m = re.search(r"kani::unwind\((\d+)\)", lines[j])
                     if m:
                         unwind = int(m.group(1))
-                reg.append(
-                    {
-                        "name": name,
-                        "file": fn,
-                        "path": MODPATH[fn] + "::" + name,
-                        "props": ann.get("prop", "").split(","),
-                        "tier": ann.get("tier", "quick"),
-                        "feat": ann.get("feat", "base"),
-                        "timeout": int(ann.get("t", "300")),
-                        "mem": int(ann.get("mem", "6")),
-                        "cbmc": ann.get("cbmc", ""),
-                        "unwind": unwind,
-                        "desc": " ".join(doc).strip(),
-                        "line": i + 1,
-                    }
-                )
+                if unwind is None and i + 1 < len(lines):
+                    m = re.search(r"^\s*api_harness!\(\s*\w+\s*,\s*(\d+)\s*,", lines[i + 1])
+                    if m:
+                        unwind = int(m.group(1))
+                feats = ann.get("feat", "base").split(",")
+                for fi, feat in enumerate(feats):
+                    # one registry entry per feature set the harness is compiled under
+                    reg.append(
+                        {
+                            "name": name if fi == 0 else f"{name}__{feat}",
+                            "file": fn,
+                            "path": MODPATH[fn] + "::" + name,
+                            "props": ann.get("prop", "").split(","),
+                            "tier": ann.get("tier", "quick"),
+                            "feat": feat,
+                            "timeout": int(ann.get("t", "300")),
+                            "mem": int(ann.get("mem", "6")),
+                            "cbmc": ann.get("cbmc", ""),
+                            "unwind": unwind,
+                            "desc": " ".join(doc).strip() + ("" if len(feats) == 1 else f" [features: {feat}]"),
+                            "line": i + 1,
+                        }
+                    )
                 doc = []
             elif ln == "" or ln.startswith("#["):
                 pass
@@ -188,12 +195,18 @@ def kani_cmd(h, target_dir, json_out, playback=False):
     cmd = ["cargo", "kani", "--manifest-path", os.path.join(REPO, "Cargo.toml")]
     cmd += FEATURES[h["feat"]]
     cmd += ["--target-dir", target_dir, "-Z", "stubbing", "-Z", "unstable-options"]
+    # Kani's default reachability assertions fail by design and CBMC's JSON UI builds a full
+    # trace per failed property (3.5x wall time, 5 GB in kani-driver); reachability is witnessed
+    # by the explicit kani::cover! statements instead.
+    cmd += ["--no-assertion-reach-checks"]
     if playback:
         cmd += ["-Z", "concrete-playback", "--concrete-playback=print"]
     else:
         cmd += ["--export-json", json_out]
     cmd += ["--exact", "--harness", h["path"]]
-    cbmc = ["--max-field-sensitivity-array-size", "256"]
+    cbmc = []
+    if "--max-field-sensitivity-array-size" not in h["cbmc"]:
+        cbmc = ["--max-field-sensitivity-array-size", "4096"]
     if h["cbmc"]:
         cbmc += h["cbmc"].split()
     cmd += ["--cbmc-args"] + cbmc
@@ -493,7 +506,7 @@ def run_replay(path, quiet=False):
 # --------------------------------------------------------------------------------------------
 # Check a property
 # --------------------------------------------------------------------------------------------
-def schedule(harnesses, jobs, tier, mem_total_gb=54):
+def schedule(harnesses, jobs, tier, mem_total_gb=int(os.environ.get("VERIF_MEM_TOTAL", "54"))):
     pool = SlotPool(jobs)
     results = {}
     lock = threading.Condition()
@@ -647,7 +660,7 @@ def write_evidence(prop, tier, seed, sel, results, confirmed, known_hits, inconc
                 "what": h["desc"],
                 "instantiation_features": " ".join(FEATURES[h["feat"]]),
                 "unwind": h["unwind"],
-                "cbmc_args": "--max-field-sensitivity-array-size 256 " + h["cbmc"],
+                "cbmc_args": ("" if "--max-field-sensitivity-array-size" in h["cbmc"] else "--max-field-sensitivity-array-size 4096 ") + h["cbmc"],
                 "verdict": r.get("verdict"),
                 "reason": r.get("reason", ""),
                 "checks_decided": r.get("checks_passed", 0) + len(r.get("failed_checks", [])),
@@ -758,6 +771,8 @@ def main():
     ap.add_argument("--replay")
     ap.add_argument("--list", action="store_true")
     ap.add_argument("--setup", action="store_true")
+    ap.add_argument("--build", action="store_true", help="developer aid: compile all harnesses (codegen only) for every feature set")
+    ap.add_argument("--sweep", action="store_true", help="developer aid: run every selected harness once, print a table (no evidence)")
     a = ap.parse_args()
     os.makedirs(WORK, exist_ok=True)
     if a.list:
@@ -766,6 +781,39 @@ def main():
         return 0
     if a.setup:
         return warm(a.jobs)
+    if a.build:
+        generate_tables()
+        rc = 0
+        for feat in FEATURES:
+            if feat == "unreserved":
+                continue
+            cmd = ["cargo", "kani", "--manifest-path", os.path.join(REPO, "Cargo.toml")] + FEATURES[feat]
+            cmd += ["--target-dir", os.path.join(WORK, "build_" + feat), "-Z", "stubbing", "-Z", "unstable-options", "--only-codegen"]
+            p = subprocess.run(cmd, cwd=REPO, env=base_env(), stdout=subprocess.PIPE, stderr=subprocess.STDOUT, text=True)
+            errs = [l for l in p.stdout.split("\n")]
+            if p.returncode != 0:
+                rc = 1
+                print(f"== build failed [{feat}]")
+                out = p.stdout
+                i = out.find("error")
+                print(out[i:i + 6000])
+            else:
+                print(f"== build ok [{feat}]")
+        return rc
+    if a.sweep:
+        generate_tables()
+        sel = [h for h in parse_registry() if TIER_RANK[h["tier"]] <= TIER_RANK.get(a.tier, 0)]
+        if a.only:
+            sel = [h for h in sel if any(o in h["name"] for o in a.only.split(","))]
+        if a.prop:
+            sel = [h for h in sel if a.prop in h["props"]]
+        sel.sort(key=lambda h: -h["timeout"])
+        results, _ = schedule(sel, a.jobs, a.tier)
+        for n, r in sorted(results.items()):
+            print(f"{r['verdict']:>12} {n} wall={r.get('wall_s')} rss={r.get('peak_rss_mb')} {r.get('reason','')} "
+                  + "; ".join(fc['description'][:90] for fc in r.get('failed_checks', [])[:3]))
+        json.dump(results, open(os.path.join(WORK, "sweep.json"), "w"), indent=1)
+        return 0
     if a.replay:
         generate_tables()
         reproduced, not_run, tail = run_replay(a.replay)
